@@ -122,14 +122,17 @@ Proof. exact set_normal_spec. Qed.
 (** an outline whose corners are all genuine for the library's collinearity test (cyclically) is stored as it
     is given: hence a cyclically shifted input yields the cyclically shifted vertex list -- and by the theorems
     above the same area and perimeter, the same centroid, and a normal fixed by the right-hand rule.
-    PARTIAL.  The full statement of DESIGN section 4 ("close (push* pts) and close (push* pts') for pts' a cyclic
+    PARTIAL (only (1) is still missing).  The full statement of DESIGN section 4 ("close (push* pts) and close (push* pts') for pts' a cyclic
     shift or a collinear enrichment of pts yield cyclically equal vertex lists") additionally needs
       (1) that ACCEPTANCE is invariant: [valid_to_add] succeeds for the shifted / enriched sequence whenever it does
           for the original one (the crossing test of every prefix; this is the pairwise non-crossing invariant C04(d),
           itself partial) -- here both constructions are assumed to succeed;
       (2) enrichment in general position of the list (several inserted points per edge, on the first and on the closing
-          edge, start at an inserted point): proved below only for one point on the edge being drawn
-          ([C10_pipeline_point_on_edge]); the remaining cases are the same argument on the wrap-around corners of [close];
+          edge, start at an inserted point): NOW PROVED, for the live push / close (after fix 1ef6368), in
+          Properties/C10_pipeline.v -- [C10_pipeline_enrichment] (the stored outline of the enriched input is a cyclic shift
+          of l), [C10_enrichment_measures] (same perimeter, centroid, vertex count, Newell vector),
+          [C10_enrichment_area_normal] (same area and normal for an exactly planar outline); proofs in
+          Proofs/C10_enrich.v.  [C10_pipeline_point_on_edge] below is the one-point special case, kept;
       (3) the hypothesis that genuine corners have |cross| >= 1e-5 also towards every inserted point: it is forced --
           a point m at distance t from a on the edge a -> b with t * |x a| * sin(angle) < 1e-5 REPLACES the vertex a. *)
 Theorem C10_pipeline_shift_partial : forall (l1 l2 : list (V3 R)) (L L' : Loop R),
